@@ -665,6 +665,9 @@ func init() {
 				dg := graphinv.RunDiag(c)
 				dg.Floor("matrix_stores_at_a_pair_of_node_ids", 2)
 				res.Merge(dg)
+				rf := graphinv.RunRangeFirst(c)
+				rf.Floor("node_ids_used_as_indices", 14)
+				res.Merge(rf)
 				rl := graphinv.RunRelit(c, "./graph/simple", "./graph/multi")
 				rl.Floor("receiver_rebuilding_literals", 2)
 				res.Merge(rl)
@@ -908,6 +911,8 @@ func dump(argv []string) {
 		res = graphinv.RunNilEntry(def, argv[1:]...)
 	case "graphdiag":
 		res = graphinv.RunDiag(def)
+	case "rangefirst":
+		res = graphinv.RunRangeFirst(def)
 	case "workquery":
 		res = flagx.RunWorkQuery(def, core.Pkgs(argv[1:]...))
 	case "betascale":
